@@ -28,7 +28,7 @@ func (p *Prog) lowerTop(fi *FuncInfo, ct *Contract) (fv *FuncIVL, err error) {
 		return nil
 	}
 	l := &Lowerer{p: p, f: f, obOrd: map[string]int{}, labels: map[string]*Block{}, fnKey: fi.Key,
-		escaped: map[string]bool{}, escapedHeap: map[string]bool{}, labelSeen: map[string]bool{}, initializing: map[string]bool{}}
+		escaped: map[string]bool{}, escapedHeap: map[string]bool{}, labelSeen: map[string]bool{}, initializing: map[string]bool{}, siteOrd: map[string]int{}}
 	if ct != nil {
 		l.curProps = ct.Props
 		l.noSafety = ct.NoSafety
@@ -271,6 +271,9 @@ func (p *Prog) lowerTop(fi *FuncInfo, ct *Contract) (fv *FuncIVL, err error) {
 		for gf := range fs {
 			ghostHeap["F."+tn+"."+gf] = true
 		}
+	}
+	if ct != nil && ct.PerReturn {
+		f.splitJoinAsserts()
 	}
 	f.expandPseudo(func(hv string) *Term { return p.zeroForHeapVar(f, hv) })
 	f.dischargeFreshFrames()
@@ -518,7 +521,7 @@ func (l *Lowerer) frameObligations(ct *Contract, chain []*Contract) {
 func (p *Prog) specLowerer(key string) *Lowerer {
 	f := &FuncIVL{Key: key, Vars: map[string]string{}, HeapVars: map[string]bool{}, Assumptions: map[string]bool{}}
 	l := &Lowerer{p: p, f: f, obOrd: map[string]int{}, labels: map[string]*Block{}, fnKey: key,
-		escaped: map[string]bool{}, escapedHeap: map[string]bool{}, labelSeen: map[string]bool{}, initializing: map[string]bool{}}
+		escaped: map[string]bool{}, escapedHeap: map[string]bool{}, labelSeen: map[string]bool{}, initializing: map[string]bool{}, siteOrd: map[string]int{}}
 	fi := &FuncInfo{Key: key, Pkg: p.pkgs[0]}
 	l.fr = &frame{fi: fi, objVar: map[types.Object]string{}}
 	f.Entry = f.newBlock("entry")
